@@ -12,7 +12,7 @@ prop(
              thorough=dict(checks=64000, shards=16, timeout=3600, shrinktime="60s")),
     ],
     rule="a case = platform (github cannot delete / gitlab can) x maxComments in {1,2,5,50} x showDuplicates x a generated pull request "
-         "(1-3 rule files, or 31-36 small ones; modified / new / deleted / renamed; unified diff derived from a whole-file edit script) x a "
+         "(1-3 rule files, or 31-36 small ones; modified / new / deleted / renamed; one YAML document or several separated by '---' (whole documents and the leading '---' kept, added or removed by the pull request), comment lines that look like diff syntax, either version of a file possibly without a final newline; unified diff derived from a whole-file edit script in git order, with the 'No newline at end of file' marker) x a "
          "comment population (pint's own comments left by an earlier run, of which some are current and some stale; hand-made stale / moved / "
          "duplicated own comments; foreign positional, file-level and general comments; foreign replies; system notes; sometimes >1 API page) x "
          "2-6 runs whose report set evolves (add / drop / move / change text / unchanged / burst = more new problems than the budget on the "
